@@ -124,6 +124,8 @@ pub struct W {
     pub cur_actions: Vec<Action>,
     pub recorded: Vec<(String, Vec<Action>)>,
     pub record: bool,
+    /// the last thing written for the current case was an observation of the current state
+    pub watched: bool,
 }
 
 impl W {
@@ -140,6 +142,7 @@ impl W {
             cur_actions: vec![],
             recorded: vec![],
             record: false,
+            watched: false,
         }
     }
     pub fn stat(&mut self, k: &str, n: u64) {
@@ -159,6 +162,7 @@ impl W {
         self.finish_case();
         self.cases += 1;
         self.gen = gen.to_string();
+        self.watched = false;
         self.out.push_str(&format!("C {} {} {}\n", gen, self.shard, self.cases));
         self.stat(&format!("cases.{}", gen), 1);
     }
@@ -216,8 +220,16 @@ impl W {
         let g = self.gen.clone();
         self.stat(&format!("states.{}", g), 1);
         observe(&mut self.out, gs, kind, &mut self.panics);
+        self.watched = true;
     }
     pub fn act(&mut self, gs: &GameState, a: &Action) -> Option<GameState> {
+        if !self.watched {
+            // every action is preceded by (at least) the state it is applied to, so that the
+            // transition monitors see each step of every case
+            line(&mut self.out, 'O', &[2]);
+            observe(&mut self.out, gs, 2, &mut self.panics);
+        }
+        self.watched = false;
         line(&mut self.out, 'A', &[enc_action(a)]);
         self.cur_actions.push(*a);
         match catch_unwind(AssertUnwindSafe(|| gs.take_action(a))) {
